@@ -1,5 +1,5 @@
 #!/usr/bin/env python3
-"""Regenerate DESIGN.md sections 8.2-8.4 from MANIFEST.json, known_findings.json and seeded/*/meta.json."""
+"""Regenerate DESIGN.md sections 8.2-8.5 from MANIFEST.json, known_findings.json and seeded/*/meta.json."""
 import json, glob, os, re
 V = "/verif"
 man = json.load(open(f"{V}/MANIFEST.json"))
@@ -73,8 +73,9 @@ for d in sorted(glob.glob(f"{V}/seeded/*/meta.json")):
     res = str(m.get("check_result", "not evaluated yet")).replace("|", "\\|")
     out.append(f"| {sid} | {title} | {res} |")
 out.append("")
+out.append(open(f"{V}/tools/design_8_5.md").read())
 txt = open(f"{V}/DESIGN.md").read()
 i = txt.index("### 8.2 Per property")
 txt = txt[:i] + "\n".join(out) + "\n"
 open(f"{V}/DESIGN.md", "w").write(txt)
-print("DESIGN.md sections 8.2-8.4 regenerated:", len(out), "lines")
+print("DESIGN.md sections 8.2-8.5 regenerated:", len(out), "lines")
